@@ -23,6 +23,29 @@ def candidatePorts (ports : List EndpointPort) (sp : SvcPort) : List Nat :=
     | none => some (getDefaultPort sp)
     | some n => if p.name = some sp.name then some n else none
 
+/-- an EndpointPort entry *answers* for the ServicePort: it has no number ("all ports") or carries its name -/
+def hitsB (sp : SvcPort) (p : EndpointPort) : Bool := p.port.isNone || decide (p.name = some sp.name)
+
+/-- the number such an entry stands for -/
+def hitValue (sp : SvcPort) (p : EndpointPort) : Nat :=
+  match p.port with
+  | none => getDefaultPort sp
+  | some n => n
+
+/-- The port a slice publishes for the ServicePort, as the code reads it: the value of the FIRST entry
+that answers for the ServicePort; `none` when there is no such entry (or its number is 0). -/
+def publishedPort (ports : List EndpointPort) (sp : SvcPort) : Option Nat :=
+  match ports.find? (hitsB sp) with
+  | some p => if hitValue sp p = 0 then none else some (hitValue sp p)
+  | none => none
+
+/-- The declarative set of the property statement: `e` is a ready address of a slice that belongs to the
+Service, has an allowed (non-FQDN) address type and publishes the referenced port, with that port. -/
+def InSpec (all : List Slice) (ns name : String) (sp : SvcPort) (allowed : List AddrType) (e : Ep) : Prop :=
+  ∃ s ∈ all, s.ns = ns ∧ s.svcLabel = some name ∧ s.addrType ≠ .fqdn ∧ s.addrType ∈ allowed ∧
+    publishedPort s.ports sp = some e.port ∧ e.ipv6 = decide (s.addrType = .ipv6) ∧
+    ∃ ep ∈ s.endpoints, ep.ready = some true ∧ e.address ∈ ep.addresses
+
 def belongs (s : Slice) (ns name : String) : Bool :=
   decide (s.ns = ns) && decide (s.svcLabel = some name)
 
